@@ -455,6 +455,30 @@ def gen_fnmatch_classes(rng, full):
     return ops
 
 
+def gen_fnmatch_period(rng, full):
+    """leading periods: every wildcard kind × plain / escaped / bracketed dot × leading or after-slash
+    position × flag sets with and without FNM_PERIOD / PATHNAME / NOESCAPE (F41: `*\\.c` vs `.c`)"""
+    ops = []
+    wild = [b"", b"*", b"?", b"[!a]", b"[a-z.]", b"**", b"*?", b"?*", b"[.]"]
+    dots = [b".", b"\\.", b"[.]", b"\\\\."]
+    tails = [b"c", b"", b"*"]
+    heads = [b"", b"a/", b"*/", b"a/b/"]
+    subj = [b".c", b"x.c", b"..c", b".", b"..", b"c", b"", b"a/.c", b"a/x.c", b"a/..c", b"a/.", b"a/b/.c", b"x/.c",
+            b"\\.c", b"x\\.c", b"a.c/.c"]
+    flags = (0, 1, 4, 5, 6, 7, 12, 20, 21) if full else (4, 5, 6, 7, 0)
+    for h in heads:
+        for w in wild:
+            for d in dots:
+                for t in tails:
+                    p = h + w + d + t
+                    for s in subj:
+                        if not full and len(h) > 2 and not rng.chance(1, 2):
+                            continue
+                        for fl in flags:
+                            ops.append("fnmatch %s %s %d" % (H(p), H(s), fl))
+    return ops
+
+
 def gen_fnmatch(rng, full):
     ops = []
     flags = FN_FLAGS_NOPERIOD + FN_FLAGS_PERIOD
@@ -479,6 +503,7 @@ def gen_fnmatch(rng, full):
         s = b"".join(rng.choice(subj_alpha[: (6 if rng.chance(2, 3) else len(subj_alpha))]) for _ in range(sl))
         ops.append("fnmatch %s %s %d" % (H(p), H(s), rng.choice(flags)))
     ops += gen_fnmatch_classes(rng, full)
+    ops += gen_fnmatch_period(rng, full)
     # non-ASCII subjects / patterns (decoded as wide characters)
     for p, s in ((b"?", b"\xc3\xa9"), (b"??", b"\xc3\xa9"), (b"\xc3\xa9", b"\xc3\xa9"), (b"[\xc3\xa9]", b"\xc3\xa9"),
                  (b"*", b"\xff\xfe"), (b"??", b"\xff\xfe"), (b"?", b"\xe2\x82"), (b"a\xff", b"a\xff"), (b"a\xc3", b"a\xc3")):
@@ -626,6 +651,10 @@ def classify_plat(fn, op, a, b):
         return "mbsnrtowcs: incomplete trailing sequence (compat: -1, glibc: consumes into mbstate) / dst==NULL src"
     if fn == "fnmatch":
         fl = int(w[3])
+        if fl & 4:
+            pat = b"" if w[1] == "-" else bytes.fromhex(w[1])
+            return "fnmatch with FNM_PERIOD (flags=%d): %s" % (
+                fl, "pattern has an escaped period" if b"\\." in pat else "other")
         return "fnmatch flags=%d: glibc quirk or documented difference" % fl
     if fn == "getline":
         return "getline: differs"
